@@ -21,12 +21,19 @@ def dense_bfgs(S, Y, theta, n):
     return B
 
 
+def has_pairs(mats):
+    """True when the compact representation carries at least one pair (decided from the stored factors themselves,
+    not from the package's own convenience predicate)."""
+    f0 = np.asarray(mats.invMfactors[0])
+    return bool(f0.size != 1 or f0.ravel()[0] != 0)
+
+
 def dense_from_compact(mats, n):
     """theta I - W M W^T with M obtained column by column from the package's own
     middle-matrix product: this *is* the matrix the solver works with."""
     from lbfgsb.bfgsmats import bmv
 
-    if not mats.use_factor:
+    if not has_pairs(mats):
         return mats.theta * np.eye(n)
     W = mats.W
     k = W.shape[1]
@@ -55,7 +62,7 @@ def middle_cond(mats):
     """Condition number of the inverse middle matrix [[-D, L^T], [L, theta S^T S]] rebuilt from mats.S / mats.Y.
     It governs the rounding error of every product with the compact representation, in particular when
     more pairs than variables are stored (the Gram matrices are then singular)."""
-    if not mats.use_factor:
+    if not has_pairs(mats):
         return 1.0
     S, Y = np.asarray(mats.S), np.asarray(mats.Y)
     SY = S.T @ Y
